@@ -654,6 +654,9 @@ func noteSort(s Sort, dc *declCollector) {
 }
 
 // Script builds an SMT-LIB script that is unsat iff facts imply goal.
+// AxiomWhen[i] lists the symbols that must all be present for axiom i to be included (nil: any shared symbol).
+var AxiomWhen = map[*Term][]string{}
+
 func Script(facts []*Term, goal *Term, ufs map[string]*UFSig, axioms []*Term) string {
 	dc := &declCollector{vars: map[string]Sort{}, apps: map[string]bool{}, sorts: map[string]bool{}}
 	for _, f := range facts {
@@ -688,15 +691,27 @@ func Script(facts []*Term, goal *Term, ufs map[string]*UFSig, axioms []*Term) st
 			adc := &declCollector{vars: map[string]Sort{}, apps: map[string]bool{}, sorts: map[string]bool{}}
 			collect(ax, nil, adc)
 			rel := false
-			for n := range adc.apps {
-				if dc.apps[n] {
-					rel = true
+			if when, ok := AxiomWhen[ax]; ok {
+				rel = true
+				for _, w := range when {
+					if !dc.apps[w] {
+						rel = false
+					}
+				}
+			} else {
+				for n := range adc.apps {
+					if dc.apps[n] {
+						rel = true
+					}
 				}
 			}
 			if rel {
 				taken[i] = true
-				usedAx = append(usedAx, ax)
-				collect(ax, nil, dc)
+				insts := instantiateArrayVars(ax, AxiomWhen[ax], facts, goal)
+				for _, in := range insts {
+					usedAx = append(usedAx, in)
+					collect(in, nil, dc)
+				}
 				changed = true
 			}
 		}
@@ -836,4 +851,116 @@ func selectPatterns(body *Term, bound []*Term) []*Term {
 		out = out[:6]
 	}
 	return out
+}
+
+// instantiateArrayVars: z3's array theory is incomplete under quantification over array-sorted
+// variables, so axioms that quantify over arrays are instantiated by the generator with every
+// array term that occurs as an argument of the axiom's trigger symbols in the VC; the remaining
+// quantifier ranges over integers only.
+func instantiateArrayVars(ax *Term, when []string, facts []*Term, goal *Term) []*Term {
+	if ax.Op != "forall" || len(when) == 0 {
+		return []*Term{ax}
+	}
+	var arrVars, rest []*Term
+	for _, b := range ax.Bound {
+		if b.Sort.IsArr() {
+			arrVars = append(arrVars, b)
+		} else {
+			rest = append(rest, b)
+		}
+	}
+	if len(arrVars) == 0 {
+		return []*Term{ax}
+	}
+	trig := map[string]bool{}
+	for _, w := range when {
+		trig[w] = true
+	}
+	cands := map[string]*Term{}
+	var order []string
+	var walk func(t *Term, bound map[string]bool)
+	walk = func(t *Term, bound map[string]bool) {
+		if t.Op == "forall" || t.Op == "exists" {
+			nb := map[string]bool{}
+			for k := range bound {
+				nb[k] = true
+			}
+			for _, b := range t.Bound {
+				nb[b.Name] = true
+			}
+			walk(t.Args[0], nb)
+			return
+		}
+		if t.Op == "app" && trig[t.Name] {
+			for _, a := range t.Args {
+				if a.Sort.IsArr() && !mentionsAny(a, bound) {
+					k := a.String()
+					if _, ok := cands[k]; !ok {
+						cands[k] = a
+						order = append(order, k)
+					}
+				}
+			}
+		}
+		for _, a := range t.Args {
+			walk(a, bound)
+		}
+	}
+	for _, f := range facts {
+		walk(f, nil)
+	}
+	if goal != nil {
+		walk(goal, nil)
+	}
+	if len(order) == 0 {
+		return nil
+	}
+	if len(order) > 8 {
+		order = order[:8]
+	}
+	var out []*Term
+	var rec func(i int, m map[string]*Term)
+	rec = func(i int, m map[string]*Term) {
+		if i == len(arrVars) {
+			body := Subst(ax.Args[0], m)
+			var pats []*Term
+			for _, p := range ax.Pats {
+				pats = append(pats, Subst(p, m))
+			}
+			if len(rest) == 0 {
+				out = append(out, body)
+			} else {
+				out = append(out, &Term{Op: "forall", Sort: SBool, Bound: rest, Args: []*Term{body}, Pats: pats, AltPats: ax.AltPats})
+			}
+			return
+		}
+		for _, k := range order {
+			if cands[k].Sort != arrVars[i].Sort {
+				continue
+			}
+			m2 := map[string]*Term{}
+			for kk, vv := range m {
+				m2[kk] = vv
+			}
+			m2[arrVars[i].Name] = cands[k]
+			rec(i+1, m2)
+		}
+	}
+	rec(0, map[string]*Term{})
+	return out
+}
+
+func mentionsAny(t *Term, names map[string]bool) bool {
+	if len(names) == 0 {
+		return false
+	}
+	if t.Op == "var" {
+		return names[t.Name]
+	}
+	for _, a := range t.Args {
+		if mentionsAny(a, names) {
+			return true
+		}
+	}
+	return false
 }
